@@ -53,6 +53,8 @@ func genMsgLen(rng *rand.Rand, d int) int {
 		return 16380 + rng.IntN(8)
 	case 4:
 		return rng.IntN(3000)
+	case 6, 7, 8: // shards of any length up to ~600 bytes (even lengths: shards are 2-byte aligned)
+		return max(0, d*rng.IntN(600)-rng.IntN(4))
 	case 5: // boundary of a larger multiple
 		k := 5 + rng.IntN(40)
 		return max(0, k*step-2+rng.IntN(5))
@@ -562,7 +564,11 @@ func corruptedInSet(c *caseCtx, rng *rand.Rand, cr *created) {
 		switch kk := rng.IntN(7); {
 		case kk <= 2 && len(v.ShardData[0]) > 0:
 			kind = "shard-bit-flip"
-			v.ShardData[0][rng.IntN(len(v.ShardData[0]))] ^= 1 << uint(rng.IntN(8))
+			pos := rng.IntN(len(v.ShardData[0]))
+			if rng.IntN(3) == 0 { // one of the last bytes
+				pos = len(v.ShardData[0]) - 1 - rng.IntN(min(8, len(v.ShardData[0])))
+			}
+			v.ShardData[0][pos] ^= 1 << uint(rng.IntN(8))
 		case kk == 3 && len(v.ShardData[0]) > 1:
 			kind = "shard-truncated"
 			v.ShardData[0] = v.ShardData[0][:len(v.ShardData[0])-1]
